@@ -92,6 +92,11 @@ def impl_matcher(case):
         out["again"] = bool(m.should_exclude_with(case["tags"]))          # cached providers must not change the answer
         out["run"] = bool(m.should_run_with(case["tags"]))
         out["composite"] = bool(CompositeTagMatcher([ActiveTagMatcher({}), m]).should_exclude_with(case["tags"]))
+        # composites built without members, one of them given a member afterwards
+        grown, empty = CompositeTagMatcher(), CompositeTagMatcher()
+        grown.tag_matchers.append(m)
+        out["grown_composite"] = bool(grown.should_exclude_with(case["tags"]))
+        out["empty_composite"] = bool(empty.should_exclude_with(case["tags"])) or not empty.should_run_with(case["tags"])
         if case.get("later"):
             # what the lazy values read has changed in the meantime; the same matcher is asked again
             state.update(case["later"])
@@ -171,6 +176,12 @@ def oracle(case, obs):
         out.append(("second query gives a different answer (provider cache)", "provider-cache"))
     if obs["run"] == obs["exclude"]:
         out.append(("should_run_with is not the negation of should_exclude_with", "run-vs-exclude"))
+    if obs.get("grown_composite", obs["exclude"]) != obs["exclude"]:
+        out.append(("a composite matcher that got the matcher appended after construction excludes=%s, the member excludes=%s" % (
+            obs.get("grown_composite"), obs["exclude"]), "composite-matcher"))
+    if obs.get("empty_composite"):
+        out.append(("a composite matcher without members excludes tags %s (another composite was given a member)" % case["tags"],
+                    "composite-matcher"))
     if obs["composite"] != obs["exclude"]:
         out.append(("composite matcher [empty, m] excludes=%s, member excludes=%s" % (obs["composite"], obs["exclude"]), "composite-matcher"))
     return out
